@@ -149,6 +149,9 @@ def check(cfg, lines):
                 v("C03", "item %d taken from edge %d at %s while it is at %s" % (i, ed, t, place.get(i)))
             else:
                 inside[ed].remove(i)
+                if ecfg[ed]["kind"] == "fleet" and t_put[i] and t < t_put[i][-1][0] + 2 * ecfg[ed]["transit"]:
+                    v("C14", "item %d left fleet edge %d at %s, less than a round trip (2 x %s) after it was loaded at %s" %
+                      (i, ed, t, ecfg[ed]["transit"], t_put[i][-1][0]))
             dst = dst_of_edge[ed]
             L = level[ed]
             L[0] += L[2] * (t - L[1]); L[1] = t; L[2] = len(inside[ed])
